@@ -38,6 +38,21 @@ CHECKS["C15"] = dict(
          "pathlib.PurePath.match / re.match as the definition of 'matches'. Outside the pools nothing is claimed.",
 )
 
+CHECKS["C11"] = dict(
+    engine="sbvm",
+    technique="SMT (z3) over a symbolic execution of InotifyEmitter.get_event_mask_from_filter/queue_events and "
+              "EventEmitter.queue_event; filter classes, native operation and kind symbolic; filtered vs unfiltered "
+              "emitter compared on the notification the kernel would deliver under the derived mask",
+    level=("model_checking",
+           "Every filter of up to two (thorough: three) classes from the 13-class lattice x 12 native operations x "
+           "file/dir x recursive x normal/full emitter is decided by the solver: the filtered emitter must queue "
+           "exactly the accepted sub-sequence of what the unfiltered one queues, and the mask must keep the flags "
+           "the recursive bookkeeping needs. The mask derivation is a finite case analysis, which is what bounded "
+           "solver checking decides completely.", "DESIGN.md section 9, C11"),
+    note="Trusted: inotify(7) delivery contract (event delivered iff its bit is in the mask; rename halves masked "
+         "independently), one-notification histories, os.walk stub, VM semantics (native replay), z3.",
+)
+
 NOT_YET = "check not built yet (work in progress; see DESIGN.md section 11 for the order)"
 NA = {}
 
